@@ -191,26 +191,26 @@ class QuicSession:
 
     def decrypt_packet(self, quic_packet: type[QuicPacket]):
         decryptor: QuicDecryptor
-        if isinstance(quic_packet, ShortQuicPacket):
-            quic_packet = cast(ShortQuicPacket, quic_packet)
-            if quic_packet.packet_type == QuicPacketType.RTT_1:
-                self.check_key_epoch(quic_packet.key_phase, quic_packet.isserver)
-
-            if quic_packet.isserver:
-                decryptor = self.decryptors["Application"][self.epoch_server]
-            else:
-                decryptor = self.decryptors["Application"][self.epoch_client]
-
-        else:
-            quic_packet = cast(LongQuicPacket, quic_packet)
-            match quic_packet.packet_type:
-                case QuicPacketType.INITIAL:
-                    decryptor = self.decryptors["Initial"]
-                case QuicPacketType.HANDSHAKE:
-                    decryptor = self.decryptors["Handshake"]
-                case QuicPacketType.RTT_O:
-                    decryptor = self.decryptors["Early"]
         try:
+            if isinstance(quic_packet, ShortQuicPacket):
+                quic_packet = cast(ShortQuicPacket, quic_packet)
+                if quic_packet.packet_type == QuicPacketType.RTT_1:
+                    self.check_key_epoch(quic_packet.key_phase, quic_packet.isserver)
+
+                if quic_packet.isserver:
+                    decryptor = self.decryptors["Application"][self.epoch_server]
+                else:
+                    decryptor = self.decryptors["Application"][self.epoch_client]
+
+            else:
+                quic_packet = cast(LongQuicPacket, quic_packet)
+                match quic_packet.packet_type:
+                    case QuicPacketType.INITIAL:
+                        decryptor = self.decryptors["Initial"]
+                    case QuicPacketType.HANDSHAKE:
+                        decryptor = self.decryptors["Handshake"]
+                    case QuicPacketType.RTT_O:
+                        decryptor = self.decryptors["Early"]
 
             largest_server, largest_client = dict(self.packet_number_server), dict(self.packet_number_client)
             packet_number = self.get_full_packet_number(quic_packet)
